@@ -128,8 +128,12 @@ MORE['C12'] = dict(
     text=("Proof, partial. lean/Dc4bcVerif/Props/C12.lean over Model/Air.lean, for EVERY deterministic handler whose unlogged (signing) operations leave the DKG instance alone: consistent_run (after any operation sequence the volatile instance is what "
           "replaying the log rebuilds), restart_is_identity, carries_on (a machine stopped after any sequence, reopened and replayed gives for every continuation the results and final state of one that never stopped), carries_on_many (a restart after every "
           "single operation), dies_before_log (killed after computing, before logging: the machine is the one before the operation), replayed_result (killed after logging, before the result file: the replay re-produces the lost result), same_seed_same_machine. "
+          "Props/C12Process.lean, the process as a whole (many ceremonies, any interleaving, a handler that also reads and may write the process memory, i.e. the base seed): carries_on_in_round (if no handler writes the process memory, a stop, a fresh start on the same database and a replay of round r "
+          "answer every later operation of r like the machine that never stopped, after ANY history), other_rounds_do_not_matter / same_seed_same_answers (what a machine answers in a round does not depend on the other ceremonies of its process), "
+          "mem_write_breaks_second_ceremony and mem_write_breaks_same_seed (the hypothesis is necessary: a handler wiping the seed it was handed passes every single-round theorem and fails in the second ceremony). Props/C12Seed.lean over Gen/SeedFacts.lean (regenerated): "
+          "seed_written_only_when_set, seed_handed_on_to, seed_parameter_is_read_only. "
           "Not proved: determinism of the real handlers (encodings do differ: Go map iteration order in deals/responses, ECIES randomness) and that signing does not touch the instance: assumptions, checked by airdiff on real machines at every restart point; "
-          "LevelDB durability. Tie: airdiff (above) and the bookkeeping stream compared with the compiled model."),
+          "LevelDB durability. Tie: airdiff (above; incl. a second ceremony handled by the same process, restarted at the same points, and a machine fed the second ceremony alone) and the bookkeeping stream compared with the compiled model."),
     ref='7 C12', note=AIR_NOTE)
 
 MORE['C20'] = dict(
@@ -148,9 +152,10 @@ MORE['C04'] = dict(
     technique='Lean 4 theorems about a symbolic (Dolev-Yao) model of the terms a machine exports (attacker derivability by induction; no secret of an honest machine is derivable whoever is corrupted; a deal share needs its addressee) + the finding about round-independent dealer polynomials + search of every output and database file of real ceremonies for every secret (secretdiff)',
     text=("Proof, partial. lean/Dc4bcVerif/Props/C04.lean over Model/Sym.lean: secrecy (guardedness of the exported terms is preserved by every attacker operation: projections, decryption with the keys of corrupted participants, reading signed messages, building terms), "
           "exported_guarded and machine_secrets_safe (for every n, t, number of signed messages and every set of corrupted participants: the long-term key, seed, polynomial coefficients and final share of an honest machine are not derivable from everything it exports), "
-          "deal_share_needs_addressee, rounds_share_dealer_secret (KNOWN-FINDING C04-rounds-share-dealer-polynomial: the dealer polynomial does not depend on the round). The model is symbolic: it says where secrets are placed, not how strong ECIES, Schnorr, BLS or scrypt+AES-GCM are; "
+          "deal_share_needs_addressee, rounds_share_dealer_secret (KNOWN-FINDING C04-rounds-share-dealer-polynomial: the dealer polynomial does not depend on the round). Props/C04Src.lean over Gen/SecretUses.lean (regenerated from the source on every run): secret_uses_known (every mention of the long-term key and of the BLS share in packages airgapped and dkg, "
+          "with the call that consumes it), consumers_are_these (nine callees: curve arithmetic, the dealer constructor, ECIES decryption, threshold signing, (un)marshalling; none prints, logs or wraps an error), plain_statements_are_these. The model is symbolic: it says where secrets are placed, not how strong ECIES, Schnorr, BLS or scrypt+AES-GCM are; "
           "that the Go code exports exactly the modelled terms, that the database holds key and shares only encrypted and that a wrong password opens nothing are NOT theorems: they are checked on real machines by secretdiff (every result file, board message and database file searched "
-          "for every secret in ten encodings incl. nested base64; every deal tried with every key; wrong passwords after a correct unlock in the same process; all pairs of rounds compared)."),
+          "for every secret in ten encodings incl. nested base64; every deal tried with every key; wrong passwords after a correct unlock in the same process; all pairs of rounds compared; the answers - result files and refusal texts - of a machine fed mutated variants of every operation are searched too, numbers also as printed numbers)."),
     ref='7 C04', note=AIR_NOTE + ' No model stream for this property: the correspondence is the secret scan.')
 
 NOT_APPLICABLE = {}
